@@ -157,8 +157,12 @@ def gen_int_group(rng, qbits):
             q = rng.randrange(1 << (qbits - 1), 1 << qbits) | 1
         if not mg.is_prime(q):
             continue
-        for _ in range(200):
-            r = rng.randrange(1, 64) * 2 if q != 2 else rng.randrange(1, 64)
+        # the cofactor's size varies too, so that p and q cross byte boundaries independently
+        rbits = rng.choice([1, 2, 3, 4, 5, 6, 6, 7, 8, 9, 12, 15, 16, 17, 20])
+        for _ in range(400):
+            r = rng.randrange(1 << max(0, rbits - 1), 1 << rbits)
+            if q != 2:
+                r = (r // 2) * 2 or 2
             p = r * q + 1
             if mg.is_prime(p) and p > 2:
                 break
